@@ -122,6 +122,16 @@ def walkRm (img : Img) (m r : Nat) : Nat → Int → Nat → String → Except F
       else
         walkRm img m r fuel idx' (j + 1) (acc ++ s!" {idx' - 1}:{hx obj.name}:-")
 
+/-- `ctor <memsize>`: the constructor on a region of its own -/
+def ctorStr (ms : String) : String :=
+  match parseNat? ms with
+  | none => "bad-op"
+  | some 0 => "ctor attach untouched g1"
+  | some memsize =>
+    match initMem memsize with
+    | none => "ctor null EINVAL untouched g1"
+    | some img => s!"ctor ok {img.maxslots} {img.usedslots} {img.num} zero g1"
+
 def step (st : St) (ws : List String) : St × String :=
   match ws with
   | ["init", ms] =>
@@ -138,6 +148,12 @@ def step (st : St) (ws : List String) : St × String :=
       match initMem memsize with
       | none => ({ img := none, keys := #[], nops := 0 }, "init null EINVAL")
       | some img => finish { img := none, keys := #[], nops := 0 } none img #[] s!"init ok"
+  | ["ctor", ms] => (st, ctorStr ms)
+  | ["ctor", ms, _] => (st, ctorStr ms)
+  | ["memsize", n] =>
+    match parseNat? n with
+    | none => (st, "bad-op")
+    | some n => (st, s!"memsize {calculateMemsize n}")
   | _ =>
     match st.img with
     | none => (st, "noinit")
@@ -145,20 +161,25 @@ def step (st : St) (ws : List String) : St × String :=
       let fault (f : Fault) : St × String := (st, faultStr f)
       match ws with
       | [op, k, v, h, m] =>
-        if op == "put" || op == "sput" then
-          match keyArgs k h m (op == "sput"), Hex.decode v with
+        if op == "put" || op == "sput" || op == "putstr" then
+          match keyArgs k h m (op != "put"), Hex.decode v with
           | some kr, some vb =>
-            match put img kr.key vb kr.h32 kr.md5 with
+            match put img kr.key (if op == "putstr" then vb ++ [0] else vb) kr.h32 kr.md5 with
             | .error f => fault f
             | .ok (img', r) => finish st (some img) img' (addKey st.keys kr) (resStr r)
           | _, _ => (st, "bad-op")
         else (st, "bad-op")
       | [op, k, h, m] =>
-        let nul := op == "sget" || op == "srm"
+        let nul := op == "sget" || op == "srm" || op == "getstr"
         match keyArgs k h m nul with
         | none => (st, "bad-op")
         | some kr =>
-          if op == "get" || op == "sget" then
+          if op == "inv" then
+            match invProbe img kr.key kr.h32 kr.md5 with
+            | .error f => fault f
+            | .ok (img', answers) =>
+              finish st (some img) img' st.keys ("inv" ++ String.join (answers.map fun (t, a) => s!" {t}={a}"))
+          else if op == "get" || op == "sget" || op == "getstr" then
             match get img kr.key kr.h32 kr.md5 with
             | .error f => fault f
             | .ok (.ok d) => finish st (some img) img (addKey st.keys kr) ("data " ++ hx d)
@@ -190,7 +211,7 @@ def step (st : St) (ws : List String) : St × String :=
           match getnext img idx with
           | .error f => fault f
           | .ok (some o, idx') => finish st (some img) img st.keys s!"obj {idx'} {hx o.name} {hx o.data}"
-          | .ok (none, idx') => finish st (some img) img st.keys s!"end {idx'} ENOENT"
+          | .ok (none, idx') => finish st (some img) img st.keys s!"end {idx'} {(getnextErrno idx').name}"
       | ["walkrm", m, r] =>
         match parseNat? m, parseNat? r with
         | some m, some r =>
